@@ -20,7 +20,18 @@ typedef int R;
 extern "C" {
 extern int g_rm_calls, g_rm_arg, g_rm_set, g_add_r, g_add_c, g_eps, g_sv, g_newnum;
 extern const int* gp_cnt;
+/* alias pointers for loop invariants (README point 6): own/cross file of the operation, the SVector objects of the cross file */
+extern int *gp_om, *gp_os, *gp_cm, *gp_cs, *gp_perm; extern void* gp_xpool;
+extern int g_pos_i, g_pos_n; extern int* gp_pe;
 }
+/* SVSet type invariant "size <= max" of the vector a view is created for.  Only the instances whose loops carry loop
+ * contracts define it as an assumption (the havocked cross vectors other than the ghost one need it); that it is preserved is
+ * what those instances prove at the ghost vector (SIZEOK in every invariant and postcondition). */
+#ifdef ASSUME_VIEW_SIZE
+#define VIEW_SIZE_INVARIANT(n) __CPROVER_assume(0 <= (n) && (n) <= MATW)
+#else
+#define VIEW_SIZE_INVARIANT(n)
+#endif
 
 template <class RR> class Nonzero
 {
@@ -57,8 +68,12 @@ template <class T> struct SVectorBase
       __CPROVER_assert(0 <= n && n < size(), "SVector position in bounds");
 #include "SV_value_w.inc"
    }
-   int pos(int i) const
+   /* pos(i): the real body, hosted in a zero-argument member so that its loop can carry a loop contract (README point 1);
+      the argument and the vector's cells/size are exported as ghosts for that invariant */
+   int pos(int i) const { g_pos_i = i; g_pos_n = size(); gp_pe = (int*)m_elem; return pos0(); }
+   int pos0() const
    {
+      const int i = g_pos_i;
 #include "SV_pos.inc"
    }
    void remove(int n)
@@ -83,6 +98,7 @@ struct LPShared
 static inline SVectorBase<R>& view(SVectorBase<R>* pool, int* mem, int* size, int num, int i)
 {
    __CPROVER_assert(0 <= i && i < num, "vector number in bounds");
+   VIEW_SIZE_INVARIANT(size[i]);
    SVectorBase<R>& v = pool[i];
    v.m_elem = (Nonzero<R>*)mem + i * MATW; v.usedp = size + i; v.memsize = MATW;
    return v;
@@ -201,6 +217,12 @@ extern "C" void w_rm(int* om, int* os, int* cm, int* cs, int* nown, int* ncross,
    setup(h, sc, rpool, cpool, cm, cs, ncross, om, os, nown);
 #endif
    h.j_ = j;
+   gp_om = om; gp_os = os; gp_cm = cm; gp_cs = cs;
+#ifdef REMROW
+   gp_xpool = cpool;
+#else
+   gp_xpool = rpool;
+#endif
    h.body();
 }
 #elif defined(INST_CE)
